@@ -10,7 +10,14 @@ use serde_json::{Value, json};
 pub const CHARS: [&str; 18] = ["a", "\"", "\\", "/", " ", "\u{7f}", "é", "\u{ad}", "\u{2028}", "😀", "\u{e0001}", "\n", "\t", "\r", "\u{7}", "\u{b}", "\u{1}", "\u{1f}"];
 pub const FIELD_NAMES: [&str; 12] = ["a", "self", "tag", "fields", "x0", "ret", "value", "bool_to_string", "json_escape_string", "int32_to_string", "to_json", "string_println"];
 pub const LEAVES: [&str; 7] = ["int32", "int8", "uint64", "bool", "string", "unit", "float64"];
-pub const UNSUPPORTED: [&str; 7] = ["(int32, bool)", "[int32; 2]", "Vec[int32]", "Ref[int32]", "(int32) -> int32", "Gen[int32]", "Plain"];
+pub const UNSUPPORTED: [&str; 11] = ["(int32, bool)", "[int32; 2]", "Vec[int32]", "Ref[int32]", "(int32) -> int32", "Gen[int32]", "Plain", "(string)", "Vec[Plain]", "() -> unit", "((int32, bool), string)"];
+
+/// types that can have no `to_string` / `to_json` method at all (nobody can write one): the derive has
+/// to say so itself; the others (a named type without the method) may be left to the typer, whose
+/// diagnostic names the missing method
+fn structural(field_ty: &str) -> bool {
+    !matches!(field_ty, "Gen[int32]" | "Plain" | "generic-self")
+}
 
 fn leaf_ty(n: &str) -> Ty {
     match n {
@@ -329,7 +336,7 @@ impl Family for Derive {
         &["C18", "C01", "C02", "C04"]
     }
     fn rule(&self) -> &'static str {
-        "derived ToString+ToJson on: a struct and a variant holding every string of length <= 2 (quick) / <= 3 (thorough) over 18 character classes {letter, quote, backslash, slash, space, DEL, é, U+00AD, U+2028, emoji, U+E0001, newline, tab, carriage return, U+0007, U+000B, U+0001, U+001F}; structs with 1-2 fields over 7 leaf types x 12 field names (incl. self, tag, fields, x0, ret, value and the names of the helpers the derived bodies call: bool_to_string, json_escape_string, int32_to_string, to_json, string_println) at boundary values; enums with 0-2 payloads; width: structs with 0..12 (thorough 0..24) fields, variants with 0..12 (0..24) payloads, enums with 1..12 (1..24) variants, leaf types cycling (thorough: 3 rotations); fields of a type with hand-written to_string/to_json (generic instance, plain struct, enum) inside a derived struct / variant; empty struct, unit variants, nested and recursive definitions, variants named tag/fields; 30 unsupported definitions (tuple, array, Vec, Ref, fn, generic instance, non-derived struct fields; generic definitions) that must be rejected before the compile stage. oracle: each to_json line parses with a strict RFC 8259 parser to the same JSON value as the reference rendering; each to_string line equals the reference `Name { f: v }` / `Enum::Variant(v)` rendering. non-trivial = programs whose values contain a character that JSON must escape or a boundary number; distinct = distinct source text"
+        "derived ToString+ToJson on: a struct and a variant holding every string of length <= 2 (quick) / <= 3 (thorough) over 18 character classes {letter, quote, backslash, slash, space, DEL, é, U+00AD, U+2028, emoji, U+E0001, newline, tab, carriage return, U+0007, U+000B, U+0001, U+001F}; structs with 1-2 fields over 7 leaf types x 12 field names (incl. self, tag, fields, x0, ret, value and the names of the helpers the derived bodies call: bool_to_string, json_escape_string, int32_to_string, to_json, string_println) at boundary values; enums with 0-2 payloads; width: structs with 0..12 (thorough 0..24) fields, variants with 0..12 (0..24) payloads, enums with 1..12 (1..24) variants, leaf types cycling (thorough: 3 rotations); fields of a type with hand-written to_string/to_json (generic instance, plain struct, enum) inside a derived struct / variant; empty struct, unit variants, nested and recursive definitions, variants named tag/fields; 46 unsupported definitions (tuple, 1-tuple, nested tuple, array, Vec, Vec of a struct, Ref, two fn types: rejected by the derive itself, not by the typer on the generated code; generic instance and non-derived struct fields without the method, generic definitions: rejected before the compile stage). oracle: each to_json line parses with a strict RFC 8259 parser to the same JSON value as the reference rendering; each to_string line equals the reference `Name { f: v }` / `Enum::Variant(v)` rendering. non-trivial = programs whose values contain a character that JSON must escape or a boundary number; distinct = distinct source text"
     }
     fn cases(&self, tier: Tier) -> Box<dyn Iterator<Item = Value> + '_> {
         Box::new(cases_list(tier).into_iter())
@@ -358,6 +365,9 @@ impl Family for Derive {
                     rep.outcome = Some(format!("rejected:{}", stage));
                     if stage == "compile" {
                         rep.findings.push(Finding { property: "C18", class: "derive.rejected-late".into(), site, detail: msg, replay });
+                    } else if stage != "lower" && structural(fty) {
+                        // (the derive's own diagnostics come back as errors of the lowering stage)
+                        rep.findings.push(Finding { property: "C18", class: "derive.rejected-by-generated-code".into(), site, detail: format!("rejected by the {} on the generated code, not by the derive: {}", stage, msg), replay });
                     }
                 }
                 crate::oracle::CompileOutcome::Panic(m) => {
